@@ -41,7 +41,7 @@ with alt_str (a : alt) : string :=
     end
   end
 with nitem_str (n : nitem) : string :=
-  match n with NItem name ty i =>
+  match n with NItem _ name ty i =>
     match name with
     | Some x => if negb simple && negb (String.eqb x "")
                 then match ty with
